@@ -260,6 +260,13 @@ func checkC02(c *Ctx) Meta {
 
 	c.Rule("C02-STORE", "deleting a keystore bucket removes its nested buckets: nested buckets live under unrelated key prefixes (depth-prefixed paths), so (*LDBBucket).DeleteBucket must enumerate them through the bucket-name index (BucketNames) and delete each, recursively or in a loop", 1)
 	c02Store(c)
+	// the store layer's own key construction, prefix scans and read/write sibling agreement (the C19
+	// rules) are premises of restart equivalence: run them here under C02's name
+	c.aliasFrom, c.aliasTo = "C19-", "C02-LDB-"
+	checkC19(c)
+	c.aliasFrom, c.aliasTo = "", ""
+	c.Rule("C02-PUBLIVE", "the public hierarchy stays usable for the life of the keystore object: the fields the loader fills once and nothing re-derives (cryptoKeyPub, masterKeyPub, the account and branch public keys) are never zeroed — every address persisted afterwards would be sealed under an all-zero key and the store could not be reopened", 1)
+	c02PubLive(c)
 	c02Errflow(c)
 	c02Keys(c)
 	c02Prov(c)
@@ -889,5 +896,58 @@ func c02Store(c *Ctx) {
 		c.OK(rule, "(*LDBBucket).DeleteBucket:nested-buckets-enumerated", where, "BucketNames() of the bucket being deleted feeds a per-name recursive deletion")
 	} else {
 		c.Bad(rule, "(*LDBBucket).DeleteBucket:nested-buckets-enumerated", c.Pos(del.Pos()), "DeleteBucket no longer enumerates the nested buckets of the bucket it deletes: the `pub` sub-bucket of a deleted keystore survives and is adopted by a keystore re-created from the same seed (after which the store cannot be reopened)")
+	}
+}
+
+// ---- PUBLIVE ------------------------------------------------------------------------------
+
+func c02PubLive(c *Ctx) {
+	rule := "C02-PUBLIVE"
+	pub := map[string]bool{"cryptoKeyPub": true, "masterKeyPub": true, "acctKeyPub": true, "internalBranchPub": true, "externalBranchPub": true}
+	// writers other than the loader / constructors / the passphrase change (which installs a new object)
+	refill := map[string][]string{}
+	var bad []string
+	n := 0
+	for fn := range c.AllFuncs {
+		if pkgOf(fn) != pkgKeystore {
+			continue
+		}
+		for _, a := range fieldAccesses(fn) {
+			if !pub[a.Field] || !strings.HasPrefix(a.Type, pkgKeystore+".") {
+				continue
+			}
+			if a.Kind == "store" {
+				refill[a.Field] = append(refill[a.Field], outermost(fn).Name())
+			}
+			if a.Kind != "load" {
+				continue
+			}
+			n++
+			v := a.In.(ssa.Value)
+			for al := range aliasesForward(fn, v) {
+				refs := al.Referrers()
+				if refs == nil {
+					continue
+				}
+				for _, r := range *refs {
+					cl, ok := r.(ssa.CallInstruction)
+					if !ok {
+						continue
+					}
+					id := calleeID(r)
+					if (callName(r) == "Zero" && callRecv(r) == al) || (strings.Contains(id, "/zero.") && len(cl.Common().Args) > 0 && cl.Common().Args[0] == al) {
+						bad = append(bad, fmt.Sprintf("%s.%s zeroed in %s at %s", shortType(a.Type), a.Field, fn.Name(), c.Pos(r.Pos())))
+					}
+				}
+			}
+		}
+	}
+	sort.Strings(bad)
+	if len(bad) > 0 {
+		c.Bad(rule, "public-hierarchy-never-zeroed", "", strings.Join(bad, "; ")+": nothing re-derives it (it is filled only by the loader), so every key issued afterwards is persisted under an all-zero key and the wallet cannot be reopened")
+	} else if n == 0 {
+		c.Bad(rule, "public-hierarchy-never-zeroed", "", "reason=anchor-missing: no use of the public-hierarchy fields found")
+	} else {
+		c.OK(rule, "public-hierarchy-never-zeroed", "", fmt.Sprintf("%d loads of cryptoKeyPub/masterKeyPub/acctKeyPub/branch public keys, none flows into Zero()", n))
 	}
 }
